@@ -350,11 +350,14 @@ func (r *Runner) MisuseMatrix() *Violation {
 			}
 		}
 
-		pages, err := tx.AllocN(3)
+		pages, err := tx.AllocN(4)
 		if err == nil {
-			fresh, toFlush, toFree := pages[0], pages[1], pages[2]
+			// (the page that gets freed is not the last one allocated: freeing the last new page just
+			// lowers the end marker, a page in the middle has to be remembered as freed)
+			fresh, toFlush, toFree, extra := pages[0], pages[1], pages[2], pages[3]
 			hFresh, hFlush := r.nextHandle, r.nextHandle+1
-			r.nextHandle += 3
+			T.Pages[r.nextHandle+3] = MPage{ID: extra.ID()}
+			r.nextHandle += 4
 			T.Pages[hFresh] = MPage{ID: fresh.ID()}
 			// new page without contents
 			if v := c.expectKind("Bytes of fresh page without contents", func() error { _, err := fresh.Bytes(); return err }, inv...); v != nil {
@@ -446,7 +449,7 @@ func (r *Runner) MisuseMatrix() *Violation {
 				}
 			}
 		} else if !IsOOM(err) || !r.bounded() {
-			return fail(violationf("alloc-error", c.item, "AllocN(3) failed: %v", err))
+			return fail(violationf("alloc-error", c.item, "AllocN(4) failed: %v", err))
 		}
 
 		// a committed page that is freed in this transaction
